@@ -992,7 +992,7 @@ def _copy_like(eng, b, func, out):
     if isinstance(t, torch.Tensor) and (t.layout != torch.strided):
         from .sparse import record, to_dense
         if isinstance(out, torch.Tensor) and out.layout != torch.strided:
-            eng.sparse[id(out)] = record(eng, t)  # detach / alias of a sparse tensor: same (indices, values)
+            eng.sparse[id(out)] = record(eng, t)  # detach / alias of a sparse tensor: same (indices, values) record object
             eng.keep.append(out)
             return None
         return to_dense(eng, t)
